@@ -53,5 +53,9 @@ shrink_candidates = resume.shrink_candidates
 
 def evidence_extra(records):
     pts = sum(r['res'].get('info', {}).get('crash_points', 0) for r in records.values() if 'res' in r)
-    return {'single_kill_points_enumerated': pts,
+    inter = set()
+    for r in records.values():
+        inter.update(r.get('res', {}).get('info', {}).get('interleavings', []))
+    return {'distinct_pool_interleavings': {'count': len(inter), 'measure': 'distinct (task count, workers, sequence of workers given the baton at seams) per pool run'},
+            'single_kill_points_enumerated': pts,
             'exhaustive_note': 'every single kill point of each layer-A configuration was executed (exhaustive per configuration only)'}
